@@ -12,7 +12,7 @@ from harness.props.c06 import ref_eq
 _state = {}
 
 
-class Alarm(Exception):
+class Alarm(BaseException):
     pass
 
 
@@ -32,21 +32,22 @@ def _worker(chunk):
     for func, req, src, env in chunk:
         for k, v in env.items():
             it.environment.put(k, proto.to_ckl(v))
-        signal.alarm(20)
+        signal.setitimer(signal.ITIMER_REAL, 20, 0.5)
         try:
             v = it.interpret(src, "t")
-            signal.alarm(0)
+            signal.setitimer(signal.ITIMER_REAL, 0)
             try:
                 out.append(('ok', proto.enum_form(proto.from_ckl(v, sorted_enum=True))))
             except proto.NotData as e:
                 out.append(('notdata', str(e)))
         except CklRuntimeError as e:
-            signal.alarm(0)
+            signal.setitimer(signal.ITIMER_REAL, 0)
             out.append(('err', str(getattr(e, 'msg', e))[:120]))
         except Alarm:
+            signal.setitimer(signal.ITIMER_REAL, 0)
             out.append(('timeout',))
         except BaseException as e:  # noqa
-            signal.alarm(0)
+            signal.setitimer(signal.ITIMER_REAL, 0)
             out.append(('host', type(e).__name__ + ": " + str(e)[:80]))
     return out
 
